@@ -477,4 +477,38 @@ func c02R5(c *Ctx, r *Report, e *aliasEngine, scope map[*ssa.Function]bool, fns 
 		}
 	}
 	r.extra["bounds_proof_kinds"] = why
+
+	// "whatever is accepted can be re-packed without panicking", for the text packers: character-strings and octet
+	// strings keep the octets the decoder accepted as escaped text; packing walks that text with index arithmetic of
+	// its own (backslash, \DDD). Same prover, with index and slice expressions on strings included.
+	r.rule("C02.R5.repack-text", 20, "every index / slice on the text and on the buffer in the character-string packers is entailed in bounds")
+	var entries []*ssa.Function
+	for _, n := range []string{"packString", "packStringTxt", "packStringOctet", "packTxtString", "packOctetString", "packTxt"} {
+		if f := c.ssaFunc(n); f != nil {
+			entries = append(entries, f)
+		}
+	}
+	scope2 := e.reachable(entries)
+	var fns2 []*ssa.Function
+	for f := range scope2 {
+		fns2 = append(fns2, f)
+	}
+	sort.Slice(fns2, func(i, j int) bool { return fnDisplay(fns2[i]) < fnDisplay(fns2[j]) })
+	withStrings = true
+	defer func() { withStrings = false }()
+	bp2 := newBoundsProver(c, e, scope2)
+	counter2 := map[string]int{}
+	for _, f := range fns2 {
+		r.fn(fnDisplay(f))
+		for _, s := range boundSites(f) {
+			bp2.prove(s)
+			base := fmt.Sprintf("%s:%s", fnDisplay(f), s.describe())
+			counter2[base]++
+			construct := base
+			if counter2[base] > 1 {
+				construct = fmt.Sprintf("%s#%d", base, counter2[base])
+			}
+			r.check(s.Proven, "C02.R5.repack-text", construct, c.pos(s.Instr.Pos()), s.Why, "the access %s is not covered by a dominating length test (%s): a string the decoder accepted (one ending in a backslash, say) makes the packer panic", s.describe(), s.Why)
+		}
+	}
 }
